@@ -82,3 +82,16 @@ CLAIMS["C11"] = dict(
          "paths only; SC memory; exhaustive only within the model's bounds.",
     design_ref="DESIGN.md §6 C11",
 )
+
+CLAIMS["C16"] = dict(
+    text="Cqueue.tla (literal model of EventSender::send/drop, Cqueue::poll incl. the register-then-recheck, continue_bottom "
+         "nested on the poller's stack, check_panic's join, Cqueue::drop's cancel-and-drain as used by cqueue::scope and "
+         "select!) is checked exhaustively by TLC for 2-3 arms (oneshot and looping), thread and coroutine pollers: events "
+         "consumed once, bottom half never without/before its top half, Finished only when every arm has ended and been "
+         "joined, no arm running when the scope is left, poll returns only fully run arms, deadlock-freedom. The defect of the "
+         "pinned tree (F8: Finished with a Done event unconsumed) is switchable in the spec. TLC behaviours are replayed into "
+         "the real cqueue with the select coroutines as externally spawned actors; schedules are explored; oracle: per-arm "
+         "top/bottom counters, tokens returned, arms still executing at scope exit, re-raised panic, hang.",
+    note="poll with a timeout is covered by C08's deadline checks only; SC memory; exhaustive only within the model's bounds.",
+    design_ref="DESIGN.md §6 C16",
+)
